@@ -22,14 +22,14 @@ CFG = {
                   "(Kind, canonAddr) validated only by the correspondence; the concurrent interleavings of the real goroutines are "
                   "covered by the acceptance recorder (thorough tier), not by the theorems (sequential semantics, watcher explicit).",
     "components": [
-        {"component": "udpmux", "session_start": "new", "trivial_regex": r"^(skip|error|bad-op.*|bad|ok|end ok)$",
+        {"component": "udpmux", "require_stats": {"in.su.delivered": 100, "closein.w.delivered": 5}, "session_start": "new", "trivial_regex": r"^(skip|error|bad-op.*|bad|ok|end ok)$",
          "timeout_quick": 120, "timeout_thorough": 900, "shrink_s": 40},
         # the universal mux: one real UniversalUDPMuxDefault per session over the same fake socket, virtual clock
-        {"component": "udpmuxuni", "session_start": "new", "trivial_regex": r"^(skip|error|bad-op.*|bad|ok|end ok|err:notimpl)$",
+        {"component": "udpmuxuni", "require_stats": {"in.xs.taken.delivered": 10, "getconnforurl.ok": 50}, "session_start": "new", "trivial_regex": r"^(skip|error|bad-op.*|bad|ok|end ok|err:notimpl)$",
          "timeout_quick": 120, "timeout_thorough": 900, "shrink_s": 40},
         # tie A: concurrent acceptance recorder; emits nothing in the quick tier. A recorded history is evidence as a
         # whole, so it is not shrunk (every line carries its own data; a replay re-runs only the Lean acceptance check).
-        {"component": "udpmuxconc", "session_start": "new", "trivial_regex": r"^(skip|error|bad-op.*)$",
+        {"component": "udpmuxconc", "allow_empty_quick": True, "session_start": "new", "trivial_regex": r"^(skip|error|bad-op.*)$",
          "timeout_quick": 60, "timeout_thorough": 900, "shrink_s": 0},
     ],
     "rule": "quick: 3000 sessions (8..40 ops), thorough: 40000 sessions (8..200 ops) + 400 concurrent recorder sessions (2..5 actor goroutines x 20..60 calls, 30..90 datagrams, GOMAXPROCS in {1,2,4,16}); each session = one real UDPMuxDefault on an "
